@@ -258,9 +258,10 @@ def families(tier):
                 UnrollFamily(TwoLevelSpace(1), 'D', top_reps=(1, 2)), LibraryUnroll()]
     return [empty_blocks_family(),
             UnrollFamily(NestedSpace2(2)), UnrollFamily(NestedSpace2(2, reps=(('reg', 2), ('reg', 3)), atoms=[('X', 0), ('R', 1), ('M', 0), ('Z', 0), ('B', 0)]), 'H'),
-            UnrollFamily(NestedSpace1(3, reps=(1, 2, 3), bodies=N1_BODIES + N1_BODIES_EXTRA), 'G', top_reps=(1, 2)),
+            UnrollFamily(NestedSpace1(2, reps=(1, 2, 3), bodies=N1_BODIES + N1_BODIES_EXTRA), 'G', top_reps=(1, 2, ('reg', 3))),
+            UnrollFamily(NestedSpace1(3, reps=(2,), bodies=N1_BODIES + N1_BODIES_EXTRA[:5]), 'H', top_reps=(1, 2)),
             UnrollFamily(NestedSpace1(3), 'D'),
-            UnrollFamily(TwoLevelSpace(2), 'D', top_reps=(1, 2, ('reg', 3))), LibraryUnroll()]
+            UnrollFamily(TwoLevelSpace(2, reps=(1, 2)), 'D', top_reps=(1, 2, ('reg', 3))), LibraryUnroll()]
 
 
 def signature(f):
